@@ -618,12 +618,12 @@ func init() {
 				case 1:
 					b = []byte(fmt.Sprintf("%X", b))
 				}
-				return []any{b}
+				return []any{"the receiver is a fresh value of the run", b} // (argument 0 of a method root is its receiver)
 			}
 		}
 	}
 	ownCase("encoding/ewkb.(*Point).Scan", scanGen(true), func(a []any) string {
-		src := a[0].([]byte)
+		src := a[1].([]byte)
 		var p ewkb.Point
 		var ls ewkb.LineString
 		var pg ewkb.Polygon
@@ -638,7 +638,7 @@ func init() {
 		return out
 	})
 	ownCase("encoding/wkb.(*Geom).Scan", scanGen(false), func(a []any) string {
-		src := a[0].([]byte)
+		src := a[1].([]byte)
 		var g wkb.Geom
 		var p wkb.Point
 		var ls wkb.LineString
